@@ -17,6 +17,7 @@ import (
 	"log"
 	"math/rand"
 	"os"
+	"sort"
 	"time"
 
 	"go4.org/types"
@@ -262,6 +263,40 @@ func (p *paths) indexQueries(path string, e *idx.Env, n int) error {
 				}
 				emit(Ev{"ev": "claims", "w": p.w, "n": n, "path": path, "pn": pn, "attr": attr, "signer": sg,
 					"ids": p.claimIDs(cls), "dated": datesSorted(cls)})
+			}
+		}
+	}
+	// look-up BY VALUE over the signerattrvalue rows: which permanodes hold attr = v for this signer as of T
+	for _, attr := range p.g.Attrs {
+		if !index.IsIndexedAttribute(attr) {
+			continue
+		}
+		for _, v := range p.g.Vals {
+			for _, t := range p.g.Times {
+				for _, sg := range p.g.Signers {
+					if sg == 0 {
+						continue
+					}
+					dest := make(chan blob.Ref, 64)
+					errc := make(chan error, 1)
+					go func() {
+						errc <- e.Ix.SearchPermanodesWithAttr(ctx, dest, &camtypes.PermanodeByAttrRequest{
+							Signer: p.s.PubRef[sg], Attribute: attr, Query: Values[v-1], At: p.at(t), MaxResults: 1000})
+					}()
+					var got []int
+					for br := range dest {
+						id, ok := p.b.ByRef[br]
+						if !ok || id > n {
+							id = -1
+						}
+						got = append(got, id)
+					}
+					if err := <-errc; err != nil {
+						return fmt.Errorf("SearchPermanodesWithAttr: %v", err)
+					}
+					sort.Ints(got)
+					emit(Ev{"ev": "withattr", "w": p.w, "n": n, "path": path, "attr": attr, "v": v, "t": t, "signer": sg, "pns": nn(got)})
+				}
 			}
 		}
 	}
